@@ -4,6 +4,7 @@ see notes/C15.md and known-findings.json F150 / F151) and of one latent defect o
 All runs are the functions the driver executes (`TlsSys.run` over `Sys.init`).
 -/
 import Compio.Model.TlsSys
+import Compio.Lemmas.WsShim
 
 namespace Compio.Cex.C15
 open Compio.TlsNet Compio.TlsShim Compio.TlsSys
@@ -70,5 +71,58 @@ theorem done_path_unflushed :
     let r := run 200 (Sys.init (sched true false 0 0 0) false tape2 0 [] [])
     r.2 = .stuck ∧ r.1.s.res = [.ok 0] ∧ r.1.c.res = [.running 0]
     ∧ r.1.tpS.wbuf.toList = [Cell.hs] ∧ r.1.s2c.q.toList = [] := by decide
+
+/-! ### latent (model level only): the double flush of compio-ws restarts the protocol flush on every poll
+
+`WebSocketStream::poll_flush` is `ready!(inner.poll_flush(cx))` followed by `ready!(stream.poll_flush(cx))`,
+and the first of the two is started afresh on every poll. Over a transport on which *every* flush call returns
+`Pending` at least once before it is performed (`df ≥ 1`), the two can never be `Ready` within the same poll:
+the flush never completes although every `Pending` has its wake-up - a spin. The transports compio-ws admits
+(`PollFd`, `TlsStream<PollFd>`) complete a flush with nothing to write immediately (`df = 0`), so this cannot
+be reproduced on the real code; the positive theorems of `Props/C15` are conditional on `Ready` and hold for
+every schedule. -/
+
+open Compio.WsShim in
+theorem ws_flush_never_ready_of_flush_delay (sc : WSched) (w : Ws) (v : WView) (hdf : 1 ≤ sc.df) :
+    (WsShim.pollFlush sc w v).2.2 ≠ .ready () := by
+  intro h
+  unfold WsShim.pollFlush at h
+  cases he : engFlush sc w.e v with
+  | mk e1 x =>
+    obtain ⟨v1, r1⟩ := x
+    rw [he] at h
+    cases r1 with
+    | pending p => simp at h
+    | ready u =>
+      cases u
+      simp only at h
+      -- the flush inside the protocol flush has just been performed: its counter is back at 0
+      have hcf : v1.cf = 0 := by
+        unfold engFlush at he
+        simp only at he
+        cases hw : writeOut sc w.e.queueReply.out v with
+        | mk rest y =>
+          obtain ⟨v0, r0⟩ := y
+          rw [hw] at he
+          cases r0 with
+          | pending p => simp at he
+          | ready u =>
+            cases u
+            simp only at he
+            cases hf : sFlush sc v0 with
+            | mk v2 r2 =>
+              rw [hf] at he
+              cases r2 with
+              | pending p => simp at he
+              | ready u =>
+                simp only [Prod.mk.injEq] at he
+                rw [← he.2.1]
+                unfold sFlush at hf
+                split at hf
+                · simp at hf
+                · simp only [Prod.mk.injEq] at hf
+                  rw [← hf.1]
+      unfold sFlush at h
+      simp [hcf, show 0 < sc.df by omega] at h
 
 end Compio.Cex.C15
